@@ -117,6 +117,10 @@ func (d *devWorld) start(ch *kernel.Chooser) string {
 	if da.ExpiresIn != int(cfg.Lifetime/time.Second) || da.Interval != int(cfg.PollInterval/time.Second) {
 		d.viol("lifetime", "device_authorization", "%s: expires_in/interval %d/%d, configured %v/%v", desc, da.ExpiresIn, da.Interval, cfg.Lifetime, cfg.PollInterval)
 	}
+	// the flow belongs to the client that authenticated, whatever else the request body says
+	if dev := w.Store.Devices[da.DeviceCode]; dev != nil && dev.State.ClientID != p.claimedClient() {
+		d.viol("initiating-client", "device_authorization", "%s: the device code was stored for client %q although the request was authenticated as %q", desc, dev.State.ClientID, p.claimedClient())
+	}
 	d.devs = append(d.devs, &devModel{code: da.DeviceCode, userCode: da.UserCode, client: p.claimedClient(), scopes: scopes, expires: time.Now().Add(cfg.Lifetime)})
 	return desc + " code=" + short(da.DeviceCode) + " user_code=" + da.UserCode
 }
